@@ -352,9 +352,10 @@ class SSHChannel(Generic[AnyStr], SSHPacketHandler):
             if self._recv_state == 'eof_pending':
                 self._recv_state = 'eof'
 
-                assert self._session is not None
-
-                if (not self._session.eof_received() and
+                # The session is gone once the channel has been cleaned up
+                # (connection lost while reading was paused)
+                if (self._session is not None and
+                        not self._session.eof_received() and
                         self._send_state == 'open'):
                     self.write_eof()
 
